@@ -1393,3 +1393,195 @@ Example fresh_nonvacuous :
   /\ forallb (fun n => terminal (state_of c n)) [[83;48]; [83;49]; [83;50]; [83;51]] = true
   /\ map (state_of c) [[83;49]; [83;50]; [83;51]] = [Completed; Completed; Completed].
 Proof. vm_compute. repeat split. Qed.
+
+(* ====================================================================================================== *)
+(* "every declared schema name is present in the result"                                                    *)
+(* ====================================================================================================== *)
+Definition parsed_ext (c' c : ctx) : Prop := incl (parsed c) (parsed c').
+
+Lemma parsed_ext_refl : forall c, parsed_ext c c. Proof. intro; apply incl_refl. Qed.
+Lemma parsed_ext_trans : forall a b c, parsed_ext a b -> parsed_ext b c -> parsed_ext a c.
+Proof. intros a b c H1 H2. unfold parsed_ext in *. eapply incl_tran; eassumption. Qed.
+Lemma parsed_ext_eq : forall c' c, parsed c' = parsed c -> parsed_ext c' c.
+Proof. intros c' c H. unfold parsed_ext. rewrite H. apply incl_refl. Qed.
+
+Lemma incl_add_key : forall k l, incl l (add_key k l).
+Proof. intros k l. unfold add_key. destruct (mem_str k l); [apply incl_refl | apply incl_appl, incl_refl]. Qed.
+
+Lemma In_add_key : forall k l, In k (add_key k l).
+Proof.
+  intros k l. unfold add_key. destruct (mem_str k l) eqn:E; [apply mem_str_In; exact E|].
+  apply in_or_app. right. left. reflexivity.
+Qed.
+
+Lemma registered_ext : forall c' c k, parsed_ext c' c -> registered c k = true -> registered c' k = true.
+Proof. intros c' c k H R. unfold registered in *. apply mem_str_In. apply H. apply mem_str_In. exact R. Qed.
+
+Lemma check_parsed : forall name c, parsed_ext (fst (check name c)) c.
+Proof.
+  intros name c. unfold check. destruct name as [n|]; [|apply parsed_ext_refl].
+  assert (D : parsed_ext (depth_placeholder n c) c) by (unfold parsed_ext; cbn; apply incl_add_key).
+  assert (C : parsed_ext (cycle_placeholder n c) c).
+  { unfold cycle_placeholder, parsed_ext. cbv zeta. destruct (should_store n (cycle_path n (stack c)));
+      destruct (allow_self c && is_direct (cycle_path n (stack c))); cbn; try apply incl_add_key; apply incl_refl. }
+  destruct (state_of c n); try apply parsed_ext_refl;
+    (destruct (max_depth c <? depth c); [exact D|]);
+    (destruct (mem_str n (stack c)); [exact C | apply parsed_ext_eq; reflexivity]).
+Qed.
+
+Lemma enter_parsed : forall name c c' a, enter name c = (c', a) -> parsed_ext c' c.
+Proof.
+  intros name c c' a H. unfold enter in H.
+  pose proof (check_parsed name (set_depth c (depth c + 1))) as K.
+  destruct (check name (set_depth c (depth c + 1))) as [c2 a2]. cbn [fst] in K.
+  assert (K' : parsed_ext c2 c) by exact K.
+  destruct a2; destruct name as [n|]; try (inversion H; subst; exact K').
+  destruct (truthy (Some n)); inversion H; subst; exact K'.
+Qed.
+
+Lemma exit_parsed : forall name c, parsed (exit name c) = parsed c.
+Proof.
+  intros name c. unfold exit.
+  assert (H1 : parsed (if 0 <? depth c then set_depth c (depth c - 1) else c) = parsed c)
+    by (destruct (0 <? depth c); reflexivity).
+  destruct name as [n|]; [|exact H1].
+  destruct (truthy (Some n)); [|exact H1]. cbv zeta.
+  destruct (mem_str n (stack (if 0 <? depth c then set_depth c (depth c - 1) else c)));
+    match goal with |- context [alookup ?k ?d] => destruct (alookup k d) as [[]|] end; exact H1.
+Qed.
+
+Lemma no_unreg_Call : forall name allow body,
+  no_unreg (Call name allow body) = true -> Forall (fun t => no_unreg t = true) body.
+Proof.
+  intros name allow body H. cbn [no_unreg] in H.
+  induction body as [|x r IH]; constructor; apply andb_true_iff in H; destruct H; auto.
+Qed.
+
+Lemma run_list_parsed : forall l,
+  Forall (fun t => no_unreg t = true -> forall c, parsed_ext (run c t) c) l ->
+  Forall (fun t => no_unreg t = true) l -> forall c, parsed_ext (run_list c l) c.
+Proof.
+  induction 1 as [|t r Ht _ IH]; intros Hn c; cbn [run_list]; [apply parsed_ext_refl|].
+  inversion Hn; subst. eapply parsed_ext_trans; [apply IH; assumption | apply Ht; assumption].
+Qed.
+
+(* registrations are never undone (as long as the body executes no `del parsed_schemas[...]`) *)
+Theorem run_parsed : forall t, no_unreg t = true -> forall c, parsed_ext (run c t) c.
+Proof.
+  induction t as [k|k|name allow body IH] using call_ind2; intros Hn c.
+  - unfold parsed_ext. cbn. apply incl_add_key.
+  - discriminate.
+  - rewrite run_Call. unfold call_step.
+    pose proof (run_list_parsed body IH (no_unreg_Call _ _ _ Hn)) as HL.
+    destruct (enter name (set_allow (frame_in c name) allow)) as [c1 a] eqn:E.
+    apply enter_parsed in E.
+    assert (P1 : parsed_ext c1 c) by exact E.
+    assert (Ex : forall Y, parsed_ext Y c -> parsed_ext (frame_out (exit name Y)) c).
+    { intros Y HY. eapply parsed_ext_trans; [|exact HY]. apply parsed_ext_eq.
+      change (parsed (frame_out (exit name Y))) with (parsed (exit name Y)). apply exit_parsed. }
+    assert (P2 : parsed_ext (exit name c1) c).
+    { eapply parsed_ext_trans; [|exact P1]. apply parsed_ext_eq, exit_parsed. }
+    destruct a.
+    + apply Ex. eapply parsed_ext_trans; [apply HL | exact P1].
+    + apply Ex. exact P1.
+    + apply Ex. exact P1.
+    + destruct name as [n|].
+      * destruct (truthy (Some n)).
+        -- destruct (registered (exit (Some n) c1) n).
+           ++ eapply parsed_ext_trans; [|exact P2]. apply parsed_ext_eq. reflexivity.
+           ++ apply Ex. eapply parsed_ext_trans; [apply HL|].
+              eapply parsed_ext_trans; [|exact P2]. apply parsed_ext_eq. reflexivity.
+        -- apply Ex. eapply parsed_ext_trans; [apply HL | exact P2].
+      * apply Ex. eapply parsed_ext_trans; [apply HL | exact P2].
+Qed.
+
+Lemma run_top_parsed : forall x c, no_unreg (top_call x) = true -> parsed_ext (run_top c x) c.
+Proof.
+  intros [t|k t] c H; cbn [run_top top_call] in *; [apply run_parsed; exact H|].
+  eapply parsed_ext_trans; [apply run_parsed; exact H | apply parsed_ext_eq; reflexivity].
+Qed.
+
+(* What the tracker itself guarantees for a top-level (re-)parse of a name that has no tracker state, started at
+   rest: it is never answered RETURN_EXISTING / RETURN_PLACEHOLDER / cycle placeholder; either the body runs
+   (CONTINUE) or the depth limit is already exceeded and the TRACKER registers the depth placeholder. *)
+Lemma top_enter_action : forall n c c1 a,
+  stack c = [] -> state_of c n = NotStarted -> enter (Some n) c = (c1, a) ->
+  a = AContinue \/ (a = ACreate /\ registered c1 n = true).
+Proof.
+  intros n c c1 a Hs Hst H. unfold enter in H.
+  set (cd := set_depth c (depth c + 1)) in *.
+  assert (Hst' : state_of cd n = NotStarted) by exact Hst.
+  assert (Hs' : stack cd = []) by exact Hs.
+  destruct (check (Some n) cd) as [c2 a2] eqn:E.
+  assert (K : a2 = AContinue \/ (a2 = ACreate /\ registered c2 n = true)).
+  { unfold check in E. rewrite Hst', Hs' in E. cbn [mem_str] in E.
+    destruct (max_depth cd <? depth cd); inversion E; subst; [right | left; reflexivity].
+    split; [reflexivity|]. unfold registered. apply mem_str_In. cbn. apply In_add_key. }
+  destruct K as [->|[-> R]].
+  - left. destruct (truthy (Some n)); inversion H; reflexivity.
+  - right. inversion H; subst. split; [reflexivity | exact R].
+Qed.
+
+Lemma visits_presents : forall alt c x n,
+  stack c = [] -> visits c x = Some n -> top_contract alt c x = true -> present alt (run_top c x) n = true.
+Proof.
+  intros alt c x n Hs Hv Hc. unfold top_contract in Hc. rewrite Hv in Hc. unfold visits in Hv.
+  assert (R : run_top c x = run (before_top c x) (top_call x)) by (destruct x; reflexivity).
+  rewrite R. clear R.
+  destruct (top_call x) as [name allow body| |]; try discriminate.
+  destruct name as [m|]; [|discriminate].
+  destruct (state_of (before_top c x) m) eqn:Est; try discriminate. inversion Hv; subst m.
+  rewrite run_Call. unfold call_step.
+  set (c0 := set_allow (frame_in (before_top c x) (Some n)) allow) in *.
+  assert (Hs0 : stack c0 = []) by (destruct x; exact Hs).
+  assert (Hst0 : state_of c0 n = NotStarted) by exact Est.
+  destruct (enter (Some n) c0) as [c1 a] eqn:E.
+  destruct (top_enter_action n c0 c1 a Hs0 Hst0 E) as [->|[-> Rg]].
+  - (* body ran: the contract *)
+    unfold present in *. unfold registered in *.
+    change (parsed (frame_out (exit (Some n) (run_list c1 body)))) with (parsed (exit (Some n) (run_list c1 body))).
+    rewrite exit_parsed. exact Hc.
+  - unfold present, registered in *.
+    change (parsed (frame_out (exit (Some n) c1))) with (parsed (exit (Some n) c1)).
+    rewrite exit_parsed, Rg. reflexivity.
+Qed.
+
+(* C08, presence: if the parser body honours the contract and never deletes a registration, every name visited by a
+   top-level (re-)parse is present at the end of the whole loop *)
+Theorem all_present_tops : forall alt l c,
+  rest c -> contract alt c l = true -> forallb (fun x => no_unreg (top_call x)) l = true ->
+  forall n, In n (visited c l) -> present alt (run_tops c l) n = true.
+Proof.
+  intros alt. induction l as [|x r IH]; intros c Hr Hc Hn n Hin; [destruct Hin|].
+  cbn [contract] in Hc. apply andb_true_iff in Hc. destruct Hc as [Hc1 Hc2].
+  cbn [forallb] in Hn. apply andb_true_iff in Hn. destruct Hn as [Hn1 Hn2].
+  cbn [visited] in Hin. cbn [run_tops].
+  assert (Hr' : rest (run_top c x)) by (apply (rest_of_below _ c); [apply run_top_below | exact Hr]).
+  apply in_app_or in Hin. destruct Hin as [Hin|Hin]; [|apply IH; assumption].
+  destruct (visits c x) as [m|] eqn:Hv; [|destruct Hin]. destruct Hin as [->|[]].
+  pose proof (visits_presents alt c x n (proj1 Hr) Hv Hc1) as P.
+  assert (E : parsed_ext (run_tops (run_top c x) r) (run_top c x)).
+  { clear -Hn2. revert Hn2. generalize (run_top c x). induction r as [|y r IHr]; intros c0 H; cbn [run_tops]; [apply parsed_ext_refl|].
+    cbn [forallb] in H. apply andb_true_iff in H. destruct H as [H1 H2].
+    eapply parsed_ext_trans; [apply IHr; exact H2 | apply run_top_parsed; exact H1]. }
+  unfold present in *. apply orb_true_iff in P. apply orb_true_iff.
+  destruct P as [P|P]; [left | right]; eapply registered_ext; eassumption.
+Qed.
+
+(* F08e: `X: null` in components.schemas (corpus/C08/F08e.json): the body returns an empty IRSchema for a null node
+   WITHOUT registering it; the contract fails, X is visited twice (second pass of build_schemas) and stays absent *)
+Definition tops_F08e : list top := [(Plain (Call (Some [88]) true [])); (Plain (Call (Some [89]) true [(Reg [89])])); (Fresh [88] (Call (Some [88]) true []))].
+
+Theorem refuted_F08e :
+  let c := run_tops (init default_max_depth) tops_F08e in
+  contract (fun n => n) (init default_max_depth) tops_F08e = false
+  /\ visited (init default_max_depth) tops_F08e = [[88]; [89]; [88]]
+  /\ present (fun n => n) c [88] = false /\ present (fun n => n) c [89] = true
+  /\ rest c /\ guard_F08b default_max_depth tops_F08e = true.
+Proof. vm_compute. repeat split; auto. Qed.
+
+Example contract_nonvacuous :
+  contract (fun n => n) (init 1) tops_fresh = true
+  /\ visited (init 1) tops_fresh = [[83;48]; [83;49]; [83;50]; [83;51]]
+  /\ forallb (fun x => no_unreg (top_call x)) tops_fresh = true.
+Proof. vm_compute. repeat split. Qed.
